@@ -150,6 +150,9 @@ var c04Strings = []string{
 	"a[?b", "a[?]", "a[?b]]", "a[:]", "a[::]", "a[:::]", "a[1:2:3:4]", "a[1 2]", "a[1,2]", "a[-]", "a[--1]", "a[1-]", "a[1:-]", "a[9999999999999999999]", "a[:9999999999999999999]",
 	"&a", "abs(&a)", "sort_by(a, &b)", "sort_by(a, &)", "sort_by(&a, b)", "map(&a, b)", "map(a, &b)", "a == b == c", "a < b < c", "-a", "--a", "- a", "+a", "a - -b", "a -b", "a-b", "a -1", "a-1", "a - 1",
 	"'\ufffd'", "\"\ufffd\"", "`\"\ufffd\"`", "a == '\ufffd'", "`[1]]`", "`{\"a\":1}}`", "`null]`", "`1]`", "`[1]] [2`", "`[1] [2]`", "`[1],`", "`1}`",
+	// malformed let-expressions (errors under every reading of let / in)
+	"let in a", "let $a = a, in $a", "let $a = a, $b = b, in [$a]", "let , $a = a in $a", "let $a = a $b = b in $a", "let $a = a,, $b = b in $a", "foo[?let $a = a, in $a]", "let $a = in $a", "let $a a in $a", "let $a = a in", "let $a = a $a",
+	"let $a = a in $a", "let $a = a, $b = b in [$a, $b]",
 	"a × b", "a ÷ b", "a − b", "a × ", "\u00a0a", "a\u2003b", "a\tb", "a\x00", "\xff", "a\xffb", "'\xff'", "\"\xff\"", "`\"\xff\"`",
 }
 
